@@ -73,6 +73,11 @@ pub fn combos(tier: Tier) -> Vec<(Cfg, BrancherSpec)> {
                 v.push((*c, brs[i % brs.len()].clone()));
                 v.push((*c, brs[(i + 1) % brs.len()].clone()));
             }
+            // restarts only happen with a brancher that does not declare them pointless (static
+            // selector pairs do): the restart-forcing configurations also run with the default one
+            for i in [1, 3, 4] {
+                v.push((cfgs[i], BrancherSpec::Default));
+            }
         }
         Tier::Thorough => {
             for c in Cfg::slice() {
